@@ -37,6 +37,11 @@ pub struct RunResult {
     pub state_fp: u64,
     pub log_hash: u64,
     pub getrandom_calls: u64,
+    /// "<request kind>@<k>": calls that were actually dropped at their k-th real suspension
+    #[serde(default)]
+    pub abandon_points: Vec<String>,
+    #[serde(default)]
+    pub lock_acquisitions: u64,
     #[serde(default, skip_serializing_if = "Option::is_none")]
     pub plan: Option<Plan>,
     #[serde(default, skip_serializing_if = "Option::is_none")]
@@ -168,6 +173,18 @@ pub fn execute(check: &str, plan: Plan, want_log: bool) -> RunResult {
         state_fp = mix2(state_fp, fnv(format!("{}:{}:{}:{}", s.sub, s.found, s.backlog, s.outstanding).as_bytes()));
     }
     let nontrivial = checks::nontrivial(check, &facts, &probes);
+    let mut abandon_points: Vec<String> = Vec::new();
+    for c in model.calls.values() {
+        if let Some(crate::log::Outcome::Abandoned(k)) = &c.out {
+            let kind = format!("{:?}", c.req);
+            let kind = kind.split(|ch: char| ch == ' ' || ch == '{').next().unwrap_or("").to_string();
+            let timed = c.abandon_at == 0;
+            abandon_points.push(format!("{}@{}{}", kind, k, if timed { "(timed)" } else { "" }));
+        }
+    }
+    abandon_points.sort();
+    abandon_points.dedup();
+    let lock_acquisitions = hooks::HOOKS.st.lock().unwrap().lock_acquisitions;
     RunResult {
         check: check.to_string(),
         seed: plan_for_result.seed,
@@ -189,6 +206,8 @@ pub fn execute(check: &str, plan: Plan, want_log: bool) -> RunResult {
         state_fp,
         log_hash: log_hash(&events),
         getrandom_calls: hooks::GETRANDOM_CALLS.load(std::sync::atomic::Ordering::Relaxed),
+        abandon_points,
+        lock_acquisitions,
         plan: None,
         log: if want_log { Some(events) } else { None },
     }
